@@ -636,14 +636,16 @@ struct MetaSys : World {
 			int bo = add(K_BUF, a._buf, find_block(a._buf));
 			// mpt_meta_buffer itself is replaced by mpt++ (io::buffer::metatype, kind iobuffer) when both libraries are linked;
 			// mpt_meta_arguments is the same C object (bufferRef/bufferUnref/bufferCopy of meta_buffer.c) with another reset
+			size_t bytes = ledger_live_bytes();
 			if (kind == K_METABUF) mt = LIB(mpt::mpt_meta_arguments(A(&a)));
 			else mt = LIB(mpt::io::buffer::metatype::create(A(&a)));
+			bytes = ledger_live_bytes() - bytes;   // size of the one block the call allocated
 			LIB(mpt::mpt_array_clone(A(&a), 0));
 			if (!mt) return -1;
 			o = add(kind, mt, find_block(mt)); objs[o].holds.push_back(bo);
 			if (kind == K_IOBUF && objs[o].block) {
 				// private counter of a function-local class: the word of the object that goes 1 -> 2 -> 1 over addref/unref
-				uintptr_t *w = (uintptr_t *) objs[o].block; size_t n = (sizeof(mpt::io::buffer::metatype) + 2 * sizeof(void *)) / sizeof(uintptr_t);
+				uintptr_t *w = (uintptr_t *) objs[o].block; size_t n = bytes / sizeof(uintptr_t);
 				std::vector<uintptr_t> snap(w, w + n);
 				if (LIB(mt->addref())) {
 					for (size_t k = 0; k < n; ++k) if (snap[k] == 1 && w[k] == 2) objs[o].ctr = w + k;
